@@ -281,6 +281,10 @@ yd_to_md(unsigned int y, int doy)
 	if (UNLIKELY(doy < 0)) {
 		doy += 366 + !(y % 4U);
 	}
+	if (UNLIKELY(doy <= 0 || doy > 365 + !(y % 4U))) {
+		/* no such day in year Y, e.g. 366 in a common year */
+		return (struct md_s){0U, 0U};
+	}
 
 	/* get 32-adic doys */
 	m = (doy + 19) / 32U;
